@@ -483,7 +483,7 @@ func IndexGitRepo(opts Options) (bool, error) {
 // The returned bool indicates whether the index was updated, or would be
 // updated when DryRun is set. This can be informative if doing incremental
 // indexing.
-func indexGitRepo(opts Options, config gitIndexConfig) (bool, error) {
+func indexGitRepo(opts Options, config gitIndexConfig) (_ bool, retErr error) {
 	prepareDeltaBuild := prepareDeltaBuild
 	if config.prepareDeltaBuild != nil {
 		prepareDeltaBuild = config.prepareDeltaBuild
@@ -620,9 +620,15 @@ func indexGitRepo(opts Options, config gitIndexConfig) (bool, error) {
 	// Preparing the build can consume substantial memory, so check usage before starting to index.
 	builder.CheckMemoryUsage()
 
-	// we don't need to check error, since we either already have an error, or
-	// we returning the first call to builder.Finish.
-	defer builder.Finish() // nolint:errcheck
+	// Finish must also run when indexing fails, to clean up. An error that
+	// stopped us from handing over all documents is recorded first: without it
+	// Finish would install an index that lacks them. We don't need to check the
+	// error of Finish, since we either already have an error, or we are
+	// returning the first call to builder.Finish.
+	defer func() {
+		builder.MarkFailed(retErr)
+		builder.Finish() // nolint:errcheck
+	}()
 
 	for _, f := range changedOrRemovedFiles {
 		builder.MarkFileAsChangedOrRemoved(f)
